@@ -175,7 +175,7 @@ Definition Sim (s : rstate) (js : jstate) : Prop :=
 Lemma Sim_init p d0 : p <> CLOSED -> Sim (init_state D p d0) (j_init D d0).
 Proof.
   intros H. unfold Sim, init_state, init_conn, init_mstate, j_init. cbn.
-  split; [reflexivity|]. split; [exact H|]. split; [reflexivity|]. split; [intros _; split; reflexivity|].
+  split; [reflexivity|]. split; [exact H|]. split; [reflexivity|]. split; [intros _; repeat split|].
   split; [reflexivity|]. split; [reflexivity|]. discriminate.
 Qed.
 
@@ -439,7 +439,7 @@ Lemma data_tail (s : rstate) stc cl rc rr (comp text isbin : bool) (u0 uj : N) (
   let s4 := mkR D c m2 r2 (Some f) mk 0 cdt in
   stc <> CLOSED -> Wf D s -> op < 8 ->
   step D cd cf s = (s4, [], if (n =? 0) || nonempty r2 then Cont else Stop) ->
-  (text = true -> uj = u0) ->
+  (text = true -> uj = u0) -> (text = true -> (u0 =? 1) = false) ->
   let complete := n <=? lenN r2 in
   let raw := unmask cf masked key (if complete then take n r2 else r2) in
   let rest := drop n r2 in
@@ -462,7 +462,7 @@ Lemma data_tail (s : rstate) stc cl rc rr (comp text isbin : bool) (u0 uj : N) (
   | FClose c rr => exists s' e, Runs s s' e /\ judged e = ([], VClose c rr)
   end.
 Proof.
-  intros c m2 f mk s4 Hst HWf Hop MH Hu complete raw rest.
+  intros c m2 f mk s4 Hst HWf Hop MH Hu Hnr complete raw rest.
   assert (Hfc : fd_is_ctl (f_op f) = false) by (unfold fd_is_ctl; cbn [f_op f]; apply N.ltb_ge; lia).
   assert (SP : step D cd cf s4 =
                if n <=? lenN r2 then sp D cd cf s4 f (take n r2) (drop n r2) else sp D cd cf s4 f r2 []).
@@ -493,10 +493,11 @@ Proof.
     destruct comp.
     + destruct (d_data cd d0 raw) as [d1 pl]. destruct text.
       * rewrite (Hu eq_refl). destruct (u_validate u0 pl) as [[uv ue] u1] eqn:EV.
-        assert (Eue : uv = true -> ue = (u1 =? 0)).
-        { unfold u_validate in EV. destruct (u_loop u0 pl) as [v' s']. inversion EV; subst. intros ->. reflexivity. }
+        assert (Eue : uv = true -> ue = (u1 =? 0) /\ (u1 =? 1) = false).
+        { unfold u_validate in EV. destruct (u_loop u0 pl) as [v' s'] eqn:EL. inversion EV; subst. intros ->.
+          split; [reflexivity|exact (u_loop_true_not_reject _ _ _ EL)]. }
         destruct uv; cbn [negb andb].
-        -- rewrite (Eue eq_refl) in SP. destruct fin.
+        -- destruct (Eue eq_refl) as [Eue1 Hu1]. rewrite Eue1 in SP. destruct fin.
            ++ cbn in SP. rewrite N.eqb_refl in SP. cbn in SP. destruct (u1 =? 0) eqn:E0; cbn in SP |- *.
               ** eapply finish_next; [exact MH|cbn; exact Hst|exact SP|reflexivity|cbn; exact Hst| |reflexivity].
                  unfold Sim, W2; cbn. repeat split; auto; try discriminate; try (now rewrite E0).
@@ -516,10 +517,11 @@ Proof.
            unfold Sim, W2; cbn. repeat split; auto; try discriminate.
     + destruct text.
       * rewrite (Hu eq_refl). destruct (u_validate u0 raw) as [[uv ue] u1] eqn:EV.
-        assert (Eue : uv = true -> ue = (u1 =? 0)).
-        { unfold u_validate in EV. destruct (u_loop u0 raw) as [v' s']. inversion EV; subst. intros ->. reflexivity. }
+        assert (Eue : uv = true -> ue = (u1 =? 0) /\ (u1 =? 1) = false).
+        { unfold u_validate in EV. destruct (u_loop u0 raw) as [v' s'] eqn:EL. inversion EV; subst. intros ->.
+          split; [reflexivity|exact (u_loop_true_not_reject _ _ _ EL)]. }
         destruct uv; cbn [negb andb].
-        -- rewrite (Eue eq_refl) in SP. destruct fin.
+        -- destruct (Eue eq_refl) as [Eue1 Hu1]. rewrite Eue1 in SP. destruct fin.
            ++ cbn in SP. rewrite N.eqb_refl in SP. cbn in SP. destruct (u1 =? 0) eqn:E0; cbn in SP |- *.
               ** eapply finish_next; [exact MH|cbn; exact Hst|exact SP|reflexivity|cbn; exact Hst| |reflexivity].
                  unfold Sim, W2; cbn. repeat split; auto; try discriminate; try (now rewrite E0).
@@ -547,7 +549,8 @@ Proof.
       rewrite Eraw.
       assert (G : exists s' e, Runs s s' e /\ judged e = ([], VMore)).
       { exists s4, []. split; [|reflexivity]. eapply runs_stop; [exact MH|left; discriminate]. }
-      destruct comp; [rewrite d_nil|]; cbn [u_validate u_loop]; destruct text; cbn [negb andb]; exact G.
+      destruct comp; [rewrite d_nil|]; cbn [u_validate u_loop]; destruct text; cbn [negb andb]; try exact G;
+        rewrite (Hu eq_refl), (Hnr eq_refl); exact G.
     + rewrite orb_true_r in MH.
       assert (Hpos : 0 < lenN (x :: xr)) by (unfold lenN; cbn [length]; lia).
       remember (x :: xr) as r2' eqn:Er2'. clear Er2' x xr.
@@ -679,7 +682,8 @@ Proof.
     { rewrite FC in MH. cbn in MH. eapply TB; [exact MH|reflexivity]. }
     cbn in MH.
     eapply (data_tail _ stc cl rc rr jc jt jb mus ju muv mue ja (jtot + n) jd r2 op fin (hb_rsv b0) n masked key cdt Hst HWf Hctl MH).
-    intros E. symmetry. now apply Hu.
+    + intros E. symmetry. now apply Hu.
+    + intros E. unfold W2 in HW2. cbn in HW2. destruct (HW2 E) as [_ [_ R]]. exact R.
   - (* first frame of a message *)
     clear Hfr.
     destruct (pmc cf && rsv1) eqn:Ec; destruct ((op =? 1) && utf8validate cf) eqn:Et;
@@ -689,14 +693,10 @@ Proof.
       (destruct (mf_frame_limit (maxFrame cf) n) eqn:L2; cbn [orb];
        [rewrite FC in MH; cbn in MH; eapply TB; [exact MH|reflexivity]|]);
       cbn in MH.
-    + eapply (data_tail _ stc cl rc rr true true (op =? 2) 0 0 true true [] (0 + n) (d_start cd jd) r2 op fin (hb_rsv b0) n masked key cdt Hst HWf Hctl MH).
-      reflexivity.
-    + eapply (data_tail _ stc cl rc rr true false (op =? 2) mus 0 muv mue [] (0 + n) (d_start cd jd) r2 op fin (hb_rsv b0) n masked key cdt Hst HWf Hctl MH).
-      discriminate.
-    + eapply (data_tail _ stc cl rc rr false true (op =? 2) 0 0 true true [] (0 + n) jd r2 op fin (hb_rsv b0) n masked key cdt Hst HWf Hctl MH).
-      reflexivity.
-    + eapply (data_tail _ stc cl rc rr false false (op =? 2) mus 0 muv mue [] (0 + n) jd r2 op fin (hb_rsv b0) n masked key cdt Hst HWf Hctl MH).
-      discriminate.
+    + eapply (data_tail _ stc cl rc rr true true (op =? 2) 0 0 true true [] (0 + n) (d_start cd jd) r2 op fin (hb_rsv b0) n masked key cdt Hst HWf Hctl MH); reflexivity.
+    + eapply (data_tail _ stc cl rc rr true false (op =? 2) mus 0 muv mue [] (0 + n) (d_start cd jd) r2 op fin (hb_rsv b0) n masked key cdt Hst HWf Hctl MH); discriminate.
+    + eapply (data_tail _ stc cl rc rr false true (op =? 2) 0 0 true true [] (0 + n) jd r2 op fin (hb_rsv b0) n masked key cdt Hst HWf Hctl MH); reflexivity.
+    + eapply (data_tail _ stc cl rc rr false false (op =? 2) mus 0 muv mue [] (0 + n) jd r2 op fin (hb_rsv b0) n masked key cdt Hst HWf Hctl MH); discriminate.
 Qed.
 
 (* ---- the header step on a violating / incomplete header ---- *)
